@@ -157,6 +157,10 @@ pub fn h2_request(variant: u64) -> Vec<u8> {
     let mut b = b"PRI * HTTP/2.0\r\n\r\nSM\r\n\r\n".to_vec();
     b.extend_from_slice(&h2_frame(4, 0, 0, &[0, 3, 0, 0, 0, 100]));
     let mut block: Vec<u8> = Vec::new();
+    if variant == 4 {                                          // size update to 0, then an out-of-range index: the decoder fails mid-block
+        b.extend_from_slice(&h2_frame(1, 0x5, 1, &[0x20, 0x82, 0x84, 0xbe]));
+        return b;
+    }
     if variant == 1 { block.push(0x20); }                     // dynamic table size update to 0
     if variant == 3 { block.extend_from_slice(&[0x3f, 0xe1, 0x1f]); } // size update to 4096
     block.extend_from_slice(&[0x82, 0x86, 0x84]);             // :method GET, :scheme http, :path /
@@ -170,16 +174,23 @@ pub fn h2_request(variant: u64) -> Vec<u8> {
     b
 }
 
-pub struct ConnSpec { pub kind: u64, pub v6: bool, pub id: u64 }
+pub struct ConnSpec { pub kind: u64, pub v6: bool, pub id: u64, pub cid: Option<u64>, pub cport: Option<u16>, pub sid: Option<u64>, pub same_host: bool }
+impl ConnSpec {
+    pub fn new(kind: u64, v6: bool, id: u64) -> ConnSpec { ConnSpec { kind, v6, id, cid: None, cport: None, sid: None, same_host: false } }
+}
 
 /// frames of one connection, client address derived from `id` so identities are pairwise distinct
 pub fn connection(r: &mut Rng, spec: &ConnSpec, t0: u64) -> Vec<Frame> {
     let id = spec.id;
-    let cport = 20000 + (id % 30000) as u16;
+    let cport = spec.cport.unwrap_or(20000 + (id % 30000) as u16);
+    let cid = spec.cid.unwrap_or(id);
+    let sid = spec.sid.unwrap_or(id % 3);
     let sport: u16 = match spec.kind { 0 | 3 => 80, 1 => 443, _ => 22 };
-    let c4 = [10, 1, (id / 200) as u8, 1 + (id % 200) as u8]; let s4 = [93, 184, 216, 34 + (id % 3) as u8];
-    let mut c6 = [0u8; 16]; c6[0] = 0x20; c6[1] = 1; c6[14] = (id / 200) as u8; c6[15] = 1 + (id % 200) as u8;
-    let mut s6 = [0u8; 16]; s6[0] = 0x20; s6[1] = 1; s6[7] = 9; s6[15] = 2;
+    let c4 = [10, 1, (cid / 200) as u8, 1 + (cid % 200) as u8]; let s4 = [93, 184, 216, 34 + (sid % 200) as u8];
+    let mut c6 = [0u8; 16]; c6[0] = 0x20; c6[1] = 1; c6[14] = (cid / 200) as u8; c6[15] = 1 + (cid % 200) as u8;
+    let mut s6 = [0u8; 16]; s6[0] = 0x20; s6[1] = 1; s6[7] = 9; s6[15] = 2 + (sid % 200) as u8;
+    // client and server on one address (loopback style: a host calling its own service)
+    let (s4, s6) = if spec.same_host { (c4, c6) } else { (s4, s6) };
     let isn_c = r.next() as u32 % 0x7000_0000; let isn_s = r.next() as u32 % 0x7000_0000;
     let hz_c = *r.pick(&[100u64, 250, 1000]); let hz_s = *r.pick(&[100u64, 1000]);
     let ts_c0 = 100_000 + r.below(1_000_000); let ts_s0 = 5_000_000 + r.below(1_000_000);
@@ -207,7 +218,7 @@ pub fn connection(r: &mut Rng, spec: &ConnSpec, t0: u64) -> Vec<Frame> {
         0 => format!("GET /{} HTTP/1.1\r\nHost: example.org\r\nUser-Agent: {}\r\nAccept: */*\r\nAccept-Language: en-US,en;q=0.8\r\nCookie: a={}; b=2\r\nConnection: keep-alive\r\n\r\n", id,
                      *r.pick(&["curl/7.68.0", "Mozilla/5.0 (X11; Linux x86_64) AppleWebKit/537.36 (KHTML, like Gecko) Chrome/120.0 Safari/537.36", "Wget/1.20"]), id).into_bytes(),
         1 => client_hello(r),
-        3 => h2_request(id % 4),
+        3 => h2_request(id % 5),
         _ => r.bytes(40),
     };
     // split the client bytes into 1..4 in-order segments
